@@ -1,4 +1,4 @@
-from . import asyncchecks, compiledchecks
+from . import asyncchecks, compiledchecks, smallchecks
 
 CHECKS = {
     "C01": compiledchecks.c01,
@@ -11,4 +11,5 @@ CHECKS = {
     "C08": compiledchecks.c08,
     "C09": compiledchecks.c09,
     "C13": compiledchecks.c13,
+    "C16": smallchecks.c16,
 }
